@@ -984,6 +984,12 @@ THEOREMS = [
     "Dashu.Props.C11Series.powfGuardDigits_eq",
     "Dashu.Props.C11Series.powiWorkPrec_eq",
     "Dashu.Props.C11Series.workPrec_gt",
+    "Dashu.Props.C11Series.expBody_never_exact",
+    "Dashu.Props.C11Series.lnBody_never_exact",
+    "Dashu.Props.C11Series.expFull_exact_only_zero",
+    "Dashu.Props.C11Series.lnFull_exact_only_shortcut",
+    "Dashu.Props.C11Series.body_prec",
+    "Dashu.Props.C11Series.subUlp_le",
 ]
 
 REFINED = ["Context::exp_internal entry guards (assert_finite, assert_limited_precision, zero shortcut)",
@@ -1027,8 +1033,12 @@ FRONTIER = ["that the certificate succeeds on every input (i.e. that the heurist
             "through powiNonnegF_value + C11Powi.powi_nonneg_error)",
             "FBig comparison inside the stop tests (abs_cmp, <) is at specification (value order; C14 proves the code's comparison), "
             "IBig::div_rem_euclid is Int.ediv/emod",
-            "mirror runs are budgeted: every case up to p*floor(log2 B) <= 1700, one in four up to 5300, none above and none for "
-            "|exponent| > 20000 (`mirror-skip` / no annotation): there only the certificate decides"]
+            "mirror runs are budgeted by the effective precision eff = p (for ln / ln_1p / the base of powf outside base 2: "
+            "max(p, |log_B x|), the digit count of 2^s that FBig::from hands on as a precision): every case up to "
+            "eff*floor(log2 B) <= 1700, one in eight up to 5300, none above and none for |exponent| > 20000 "
+            "(`mirror-skip` / no annotation): there only the certificate decides",
+            "powf: no theorem that the mirrored flag is Exact only for an exact result (the chain ends Exact only when the rounded "
+            "product y*ln x is zero, i.e. for base 1; not proved)"]
 RULE = ("raw cases = entry-guard table (precision 0, +-inf, negative base, exact shortcuts; every base) + "
         "exp/exp_m1 arguments {ordinary, +-B^-k down to B^-1000 and next to 0, small integers and reciprocals, up to 1e18 "
         "(exp), B^-1000-sized} + ln arguments {1 +- B^-k, ordinary, integers, powers of the base, reciprocals, B^+-5000} + ln_1p "
